@@ -29,7 +29,7 @@ MANIFEST = {
     'text': 'All plain strings over a 9-symbol separator/quote/non-ASCII alphabet up to length 3 and seven signed value '
             'shapes under three secrets are round-tripped through the real response and request code; every substitution, '
             'deletion, insertion and truncation at every position of every signed cookie, plus swaps and foreign secrets, '
-            'must read as absent without the unpickler being reached.',
+            'must read as absent without the unpickler being reached, also when it is presented to a Request object that has just read the genuine cookie (Cookie header replaced through the item interface).',
     'note': 'Bounds: plain length <=3 (thorough 4), edit distance 1 + swaps. Trusted: CPython http.cookies/hmac/pickle, the harness transport.',
 }
 
